@@ -46,7 +46,8 @@ func checkFieldCount(rc *RunCtx, prop, file string, cols []OutCol, csv bool, r o
 	}
 	// a longer line is legitimate only if a value did not fit its column
 	if len(r.raw) > want {
-		toks := strings.Fields(r.raw)
+		// text values may contain a blank ("C1 unstable"): count them as one token
+		toks := strings.Fields(strings.ReplaceAll(r.raw, "C1 unstable", "C1_unstable"))
 		over := true
 		if over && len(toks) <= len(cols) {
 			rc.Cov("fixed_width_overflow_lines", 1)
